@@ -97,9 +97,23 @@ def r2_argsets(ctx, chk, rule="C05.2"):
     where = k.func.where()
     empty_conds = (simp(("cmp", "==", C(0), ("call", "len", (SELF_NEXT,), ()))), simp(("not", ("truthy", SELF_NEXT))))
     body = None
-    if r[0] == "ite" and r[1] in empty_conds and r[2] == ("list", ()):
+
+    def says_empty(c):
+        """c <=> the successor list is empty (directly, or through a list with one entry per successor)"""
+        if c in empty_conds:
+            return True
+        if c[0] == "not" and c[1][0] == "truthy":
+            le = k.listexpr(c[1][1])
+            return le is not None and le[0] == SELF_NEXT and le[1] == TRUE and le[3]
+        if c[0] == "cmp" and c[1] == "==" and C(0) in (c[2], c[3]):
+            o = c[3] if c[2] == C(0) else c[2]
+            if o[0] == "call" and o[1] == "len" and len(o[2]) == 1:
+                le = k.listexpr(o[2][0])
+                return le is not None and le[0] == SELF_NEXT and le[1] == TRUE and le[3]
+        return False
+    if r[0] == "ite" and says_empty(r[1]) and r[2] == ("list", ()):
         body = r[3]
-    elif r[0] == "ite" and simp(("not", r[1])) in empty_conds and r[3] == ("list", ()):
+    elif r[0] == "ite" and says_empty(simp(("not", r[1]))) and r[3] == ("list", ()):
         body = r[2]
     elif r[0] == "res":
         body = r
